@@ -140,7 +140,7 @@ type e3Config struct {
 	// precommits for Y and one Byzantine prevote for X, while every header and every other prevote
 	// of that height addressed to it is held back; when the others have finalized Y the victim gets
 	// the header of X, and only later everything that was held.
-	// AttackKind 2: see nextRoundStep.
+	// AttackKind 2: see nextRoundStep. AttackKind 3: see inflatedSetStep.
 	AttackKind int `json:"attack_kind,omitempty"`
 
 	// C09(c)
@@ -573,6 +573,9 @@ func (run *e3Run) deliverable(it *e3Item) bool {
 	}
 	if run.lagHeld && it.dst == run.cfg.LagNode {
 		return false
+	}
+	if run.cfg.Attack && run.cfg.AttackKind == 3 {
+		return true
 	}
 	if run.cfg.Attack && run.cfg.AttackKind == 2 {
 		if run.atkH > 0 && run.atkStage == 1 {
@@ -1565,6 +1568,134 @@ func (run *e3Run) nextRoundStep(step int) {
 	run.logf("next-round attack: height %d, victim n%d is shown block %x for round %d with the Byzantine votes", h, run.atkVictim, short(x), r)
 }
 
+// inflatedSetStep drives attack kind 3. Stage 0: when a Byzantine validator is the proposer
+// of the round, it proposes a block whose NextValidatorSet has the right keys in the right
+// order but gives the Byzantine validators a thousand times their power (lists and hashes
+// consistent), and votes for it. A correct engine never votes for a block whose next set is
+// not the one its application returned, so nothing comes of it. Stage 1, only if the correct
+// nodes finalized that block: at the next height the Byzantine validators alone exceed two
+// thirds in every node's accounting, and they certify one block towards one node and another
+// towards the rest.
+func (run *e3Run) inflatedSetStep(step int) {
+	byz := run.w.byzList()
+	correct := run.liveCorrect()
+	if len(byz) == 0 || len(correct) < 2 {
+		return
+	}
+	if run.atkHeights == nil {
+		run.atkHeights = map[uint64]bool{}
+	}
+	mkVotes := func(h uint64, r uint32, x string, dst []int) {
+		pv, pkh := run.w.byzVote(false, h, r, map[string][]int{x: byz})
+		pc, _ := run.w.byzVote(true, h, r, map[string][]int{x: byz})
+		run.inject(e3Msg{kind: e3KindPrevote, pv: tmconsensus.PrevoteSparseProof{Height: h, Round: r, PubKeyHash: pkh, Proofs: pv}}, dst)
+		run.inject(e3Msg{kind: e3KindPrecommit, pc: tmconsensus.PrecommitSparseProof{Height: h, Round: r, PubKeyHash: pkh, Proofs: pc}}, dst)
+	}
+	var all []int
+	for _, n := range correct {
+		all = append(all, n.idx)
+	}
+	switch run.atkStage {
+	case 0:
+		h := run.netH
+		if h == 0 {
+			h = 1
+		}
+		r := run.netR[h]
+		p := run.w.proposerBase(h, r)
+		key := fmt.Sprintf("%d/%d", h, r)
+		if !run.w.byz[p] || run.atkSent[key] {
+			return
+		}
+		base, ok := run.baseHeader(h)
+		if !ok || len(base.NextValidatorSet.Validators) == 0 {
+			return
+		}
+		if run.atkSent == nil {
+			run.atkSent = map[string]bool{}
+		}
+		run.atkSent[key] = true
+		vals := append([]tmconsensus.Validator{}, base.NextValidatorSet.Validators...)
+		inflated := false
+		for i := range vals {
+			for _, b := range byz {
+				if vals[i].PubKey.Equal(run.w.pv[b].Val.PubKey) && vals[i].Power < 1<<50 {
+					vals[i].Power *= 1000
+					inflated = true
+				}
+			}
+		}
+		if !inflated {
+			return // powers near 2^58: nothing to inflate without overflow
+		}
+		nvs, err := tmconsensus.NewValidatorSet(vals, e3HashScheme)
+		if err != nil {
+			return
+		}
+		hd := e3CloneHeader(base)
+		hd.NextValidatorSet = nvs
+		ph := run.w.byzProposal(hd, h, r, p, 10)
+		run.observe(&e3Msg{kind: e3KindPH, ph: ph})
+		run.inject(e3Msg{kind: e3KindPH, ph: ph}, all)
+		mkVotes(h, r, string(ph.Header.Hash), all)
+		run.atkH, run.atkXHash, run.atkStageSince = h, string(ph.Header.Hash), step
+		run.atkStage = 1
+		run.count("byzantine.attack.inflated-next-set.proposed", 1)
+		run.logf("inflated-set attack: %d/%d proposer v%d proposes %x whose next validator set gives the Byzantine validators 1000x their power", h, r, p, short(run.atkXHash))
+	case 1:
+		// did the correct nodes finalize that block?
+		run.mu.Lock()
+		taken, other := 0, 0
+		for _, f := range run.fin {
+			if f.H == run.atkH {
+				if f.Hash == fmt.Sprintf("%x", run.atkXHash) {
+					taken++
+				} else {
+					other++
+				}
+			}
+		}
+		run.mu.Unlock()
+		if other > 0 || step-run.atkStageSince > 1500 {
+			run.atkStage = 0 // refused, as it should be: try again at a later height
+			return
+		}
+		if taken < len(correct) {
+			return
+		}
+		run.count("byzantine.attack.inflated-next-set.block-was-finalized", 1)
+		run.atkStage, run.atkStageSince = 2, step
+	case 2:
+		// the height after: certify two different blocks, alone
+		h := run.atkH + 1
+		base, ok := run.baseHeader(h)
+		if !ok {
+			if step-run.atkStageSince > 1500 {
+				run.atkStage = 3
+			}
+			return
+		}
+		r := run.netR[h]
+		victim := all[run.rng.IntN(len(all))]
+		var others []int
+		for _, i := range all {
+			if i != victim {
+				others = append(others, i)
+			}
+		}
+		phA := run.w.byzProposal(base, h, r, byz[0], 11)
+		phB := run.w.byzProposal(base, h, r, byz[0], 12)
+		run.observe(&e3Msg{kind: e3KindPH, ph: phA})
+		run.observe(&e3Msg{kind: e3KindPH, ph: phB})
+		run.inject(e3Msg{kind: e3KindPH, ph: phA}, []int{victim})
+		mkVotes(h, r, string(phA.Header.Hash), []int{victim})
+		run.inject(e3Msg{kind: e3KindPH, ph: phB}, others)
+		mkVotes(h, r, string(phB.Header.Hash), others)
+		run.count("byzantine.attack.inflated-next-set.split-certified", 1)
+		run.atkStage = 3
+	}
+}
+
 // attackStep drives the directed split attack (see e3Config.Attack).
 func (run *e3Run) attackStep(step int) {
 	if run.cfg.AttackKind == 1 {
@@ -1573,6 +1704,10 @@ func (run *e3Run) attackStep(step int) {
 	}
 	if run.cfg.AttackKind == 2 {
 		run.nextRoundStep(step)
+		return
+	}
+	if run.cfg.AttackKind == 3 {
+		run.inflatedSetStep(step)
 		return
 	}
 	byz := run.w.byzList()
